@@ -1,12 +1,13 @@
 """C01 -- discovered constraints are satisfied by the data they came from."""
 from runner.core import Context, finish
 
-MODULES = ['contracts.constraints']
+MODULES = ['contracts.constraints', 'contracts.pdcalc']
 PID = 'C01'
 
 
 def targets():
     import contracts.constraints as cc
+    import contracts.pdcalc
     from pyvc.contracts import REGISTRY
     return [i for i, c in REGISTRY.items() if not c.assumed and 'C01' in c.props]
 
